@@ -135,7 +135,7 @@ func GenParams(t *rapid.T, p *Pkg, op *Op, decls []ParamDecl) (reflect.Value, []
 // body it put on the wire.
 func captureClientBody(p *Pkg, op *Op, body reflect.Value, t *rapid.T) ([]byte, string) {
 	var got []byte
-	client, err := NewClient(p, "http://h.example"+p.BasePath, func(r *http.Request) (*http.Response, error) {
+	client, err := NewClient(p, "http://h.example"+escapedBase(p.BasePath), func(r *http.Request) (*http.Response, error) {
 		if r.Body != nil {
 			got, _ = io.ReadAll(r.Body)
 		}
@@ -210,7 +210,7 @@ func CheckC09(p *Pkg, e *Env, r *res.Result) {
 	}
 	var captured *http.Request
 	var capturedBody []byte
-	client, err := NewClient(p, "http://h.example"+p.BasePath, func(req *http.Request) (*http.Response, error) {
+	client, err := NewClient(p, "http://h.example"+escapedBase(p.BasePath), func(req *http.Request) (*http.Response, error) {
 		captured = req
 		if req.Body != nil {
 			capturedBody, _ = io.ReadAll(req.Body)
@@ -231,7 +231,7 @@ func CheckC09(p *Pkg, e *Env, r *res.Result) {
 		srv = httptest.NewServer(in.H)
 		defer srv.Close()
 		hc := srv.Client()
-		realClient, _ = NewClient(p, srv.URL+p.BasePath, func(req *http.Request) (*http.Response, error) { return hc.Do(req) })
+		realClient, _ = NewClient(p, srv.URL+escapedBase(p.BasePath), func(req *http.Request) (*http.Response, error) { return hc.Do(req) })
 	}
 	n := 400 * len(ops)
 	if !e.Quick() {
